@@ -194,6 +194,9 @@ type Exec struct {
 	knownOutcome, knownFrozen, knownRace string
 	deadline time.Time
 	knownSeen map[string]bool
+	dynStubs map[string]*Closure
+	atomics  map[*Value]Value
+	atomicLast map[*Value]*Event
 	Concrete map[string]string // concrete mode: assignment of the nondet inputs
 	Obs      []Observation
 	NoMerge bool
@@ -562,6 +565,6 @@ func NewExec(p *Program, sol *Solver, fpMode bool, trace []bool, noMerge map[*ss
 		MaxSteps: 3000000, noMerge: noMerge, noMergeAlt: map[*ssa.BasicBlock]bool{},
 		Reach: map[string]bool{}, Info: map[string]string{},
 		globals: map[*ssa.Global]*Value{}, nondetSeen: map[string]bool{},
-		knownSeen: map[string]bool{}, memAcc: map[*Value][]memAcc{}, stubs: map[string]bool{}, funcs: map[*ssa.Function]bool{},
+		knownSeen: map[string]bool{}, dynStubs: map[string]*Closure{}, memAcc: map[*Value][]memAcc{}, stubs: map[string]bool{}, funcs: map[*ssa.Function]bool{},
 	}
 }
